@@ -6,6 +6,10 @@ HERE = os.path.dirname(os.path.dirname(os.path.abspath(__file__)))
 TECH = "bounded symbolic execution of the real Go code (go/ssa -> SMT-LIB bit-vectors), z3 decides every assertion/panic/branch; counterexamples replayed natively"
 
 CHECKS = {
+ "C11": dict(
+   text="(H1) requests built through the client API - method, symbolic path/query/header-value/body bytes, body as bytes, stream of known length, stream of unknown length (chunked) - are serialised by the real req.Write and decoded by the real hertz server loop; z3 is asked whether method, path, query argument, Host, header field or body can differ, or the pipelined sentinel can fail to be handled. (H2) the real response reader (buffered and streaming) on six response shapes with symbolic body and header bytes returns the same status, field and body, enforces MaxResponseBodySize in buffered mode, leaves the next response intact, and is independent of a split point ranging over every position.",
+   note="one open known finding (streaming prefetch reading into the next response when 0 < MaxResponseBodySize < Content-Length); multipart/form bodies, proxy form and HostClient.Do plumbing outside; small bounds (1-2 symbolic bytes per component in quick)",
+   ref="DESIGN.md §4 C11"),
  "C06": dict(
    text="The real radix tree (addRoute/insert/find with backtracking) is built for each of 12 route sets in every registration order and queried with a symbolic request path ('/' + every byte string up to N bytes); z3 is asked whether the chosen route, the parameter values or the full path can differ from a 40-line reference implementing 'static > :param > *catch-all at the first point of difference, with backtracking', or whether a handler is returned when the reference finds none.",
    note="route sets are a fixed catalogue (not symbolic); raw-path unescaping and redirect lookups are outside; bounds quick N<=6, thorough N<=9",
